@@ -14,9 +14,16 @@ DICT_RECORDS = set()  # record classes that are dicts with a fixed key set (obj[
 
 
 class LoopSpec(object):
-    def __init__(self, header, invariants, decreases=None, modifies=None, ghost=None, body_facts=(), types=None, body_post=()):
+    def __init__(self, header, invariants, decreases=None, modifies=None, ghost=None, body_facts=(), types=None, body_post=(),
+                 body_always=(), exit_post=None):
         self.types = dict(types or {})
+        # exit_post: clauses proved at EVERY exit of the loop (exhaustion and break); the code after the loop is
+        # then executed once, from the loop-head state with everything the loop may change havocked again and
+        # these clauses assumed (instead of once per exit path)
+        self.exit_post = None if exit_post is None else _named(exit_post, 'exit')
         self.body_post = _named(body_post, 'step')
+        # clauses that hold at the end of one iteration on EVERY outcome (next iteration, break, return, raise)
+        self.body_always = _named(body_always, 'always')
         self.body_facts = _named(body_facts, 'fact')
         self.header = header            # fingerprint: ast.unparse of iter/test
         self.invariants = _named(invariants, 'inv')
